@@ -805,8 +805,14 @@ class ResultHandler(PoolThread):
         restart_state = self.restart_state
         on_job_ready = self.on_job_ready
 
+        # (job, index) -> pid of the worker that accepted that part: a result
+        # must be credited to the worker that sent it, not to whichever
+        # worker accepted the job's first part.
+        acked_by = {}
+
         def on_ack(job, i, time_accepted, pid, synqW_fd):
             restart_state.R = 0
+            acked_by[(job, i)] = pid
             try:
                 cache[job]._ack(i, time_accepted, pid, synqW_fd)
             except (KeyError, AttributeError):
@@ -816,17 +822,21 @@ class ResultHandler(PoolThread):
         def on_ready(job, i, obj, inqW_fd):
             if on_job_ready is not None:
                 on_job_ready(job, i, obj, inqW_fd)
-            try:
-                item = cache[job]
-            except KeyError:
-                return
 
+            # count the result as consumed even if nobody waits for it
+            # any more (discarded or already failed job): the worker that
+            # sent it is waiting for this before it exits.
+            worker_pid = acked_by.pop((job, i), None)
             if self.on_ready_counters:
-                worker_pid = next(iter(item.worker_pids()), None)
                 if worker_pid and worker_pid in self.on_ready_counters:
                     on_ready_counter = self.on_ready_counters[worker_pid]
                     with on_ready_counter.get_lock():
                         on_ready_counter.value += 1
+
+            try:
+                item = cache[job]
+            except KeyError:
+                return
 
             if not item.ready():
                 if putlock is not None:
